@@ -39,7 +39,7 @@ KEY_NESTED = 'C18-function-nested-in-same-function-unclosed-parenthesis'
 
 _PAIRS = ['+ then *', '+ then /', '- then *', '- then /', '* then +', '* then -', '/ then +', '/ then -',
           '- then +', '- then -', '+ then -', '/ then *', '/ then /', '* then /']
-REQUIRED_CLASSES = (['definedness-by-state:declared-value-later', 'definedness-by-state:absent-nothing-defined-yet', 'definedness-by-state:defined-further-down', 'equality-tolerance:inside', 'equality-tolerance:outside', 'equality-tolerance:other-unit', 'function-argument-in-dimensionless-unit'] + ['function-argument:' + f for f in ('exp', 'log', 'log10', 'sin', 'cos', 'tan', 'sqrt', 'pow-exponent', 'pow-base')] +
+REQUIRED_CLASSES = (['int-node-from-expression-with-whole-exact-result', 'definedness-by-state:declared-value-later', 'definedness-by-state:absent-nothing-defined-yet', 'definedness-by-state:defined-further-down', 'equality-tolerance:inside', 'equality-tolerance:outside', 'equality-tolerance:other-unit', 'function-argument-in-dimensionless-unit'] + ['function-argument:' + f for f in ('exp', 'log', 'log10', 'sin', 'cos', 'tan', 'sqrt', 'pow-exponent', 'pow-base')] +
                     ['num-op:' + o for o in '+-*/'] + ['num-par', 'num-ref', 'num-lit', 'num-negative-literal'] +
                     ['num-fn:' + f for f in ('exp', 'pow', 'log', 'log10', 'sqrt', 'sin', 'cos', 'tan')] +
                     ['num-pair:' + p for p in _PAIRS] +
@@ -63,7 +63,7 @@ ASSUMPTIONS = [
     'numpy.isclose\'s absolute tolerance 1e-8 plays no role; != with equal operands uses identical text in identical units',
     'not generated: unary minus in front of a reference, ln(...), ~ directly in front of a comparison without parentheses, '
     'comparisons across dimensions or between a dimensional and a plain number, array-valued template references, '
-    'non-integer powers of dimensional values, integer nodes defined by expressions (rounding is not in the statement)',
+    'non-integer powers of dimensional values, integer nodes defined by expressions whose exact result is NOT whole (how such a result becomes an int is not in the statement; whole exact results are demanded, family int-expression)',
     'a solver result may be a BooleanType, numpy.bool_ or bool; only its truth value is compared',
     'step budget: max(5e6, 200 x largest PY_START|JUMP count of an accepted call in this worker)',
 ]
@@ -116,6 +116,7 @@ def cases(rng, tier, shard, nshards, ctx):
             yield c18_modref.gen_fnarg(rng)
             yield c18_modref.gen_eqtol(rng)
             yield c18_modref.gen_defstate(rng)
+            yield c18_modref.gen_intexpr(rng)
 
 
 def gen_num(rng):
@@ -281,6 +282,9 @@ def run_case(case, ctx):
         elif case['t'] == 'eqtol':
             from vt.props import c18_modref
             out = c18_modref.run_eqtol(case, ctx, parse_text)
+        elif case['t'] == 'intexpr':
+            from vt.props import c18_modref
+            out = c18_modref.run_intexpr(case, ctx, parse_text)
         elif case['t'] == 'defstate':
             from vt.props import c18_modref
             out = c18_modref.run_defstate(case, ctx, parse_text)
